@@ -22,6 +22,10 @@ pub struct Adv {
     /// The manager may be busy once per history (Z ... G): commands queue up and are worked off in
     /// arrival order without any task running in between.
     pub busy: bool,
+    /// The incoming observer has handshaken and sent an (empty) bitfield before the search starts,
+    /// so it holds one of our upload slots; every connection has reported its rates; R = one real
+    /// choke rotation (it chokes the observer, which is not interested).
+    pub rotate: bool,
 }
 
 #[derive(Default, Clone)]
@@ -45,6 +49,7 @@ pub struct Mon {
     pub d2_scanned: usize,
     pub d2_choking: bool,
     pub pause_used: bool,
+    pub rotations: usize,
     /// Events that happened while the manager was busy (their commands are still queued).
     pub queued: Vec<String>,
 }
@@ -52,7 +57,7 @@ pub struct Mon {
 impl Scenario for Adv {
     type Mon = Mon;
     fn name(&self) -> String {
-        format!("advertise-{}-pre{:?}{}{}", self.pieces, self.preowned, if self.second_downloader { "-d2" } else { "" }, if self.busy { "-busy" } else { "" })
+        format!("advertise-{}-pre{:?}{}{}", self.pieces, self.preowned, if self.second_downloader { "-d2" } else { "" }, if self.busy { "-busy" } else if self.rotate { "-rotate" } else { "" })
     }
     fn cfg(&self) -> WorldCfg {
         let mut d = peer_cfg(0, true);
@@ -78,6 +83,12 @@ impl Scenario for Adv {
         }
         mon.o[0] = Obs { choking_us: true, ..Default::default() };
         mon.o[1] = Obs { world_index: Some(1), choking_us: true, ..Default::default() };
+        if self.rotate {
+            let id2 = w.peers[1].cfg.id;
+            w.feed(1, &[refwire::handshake(t.meta.info_hash(), &id2), Msg::Bitfield(refwire::bitfield_bytes(&vec![false; self.pieces]))]);
+            mon.o[1].handshaken = true;
+            w.step(&Ev::AdvanceTo(20_500), &[]);
+        }
         mon.completed = self.preowned.clone();
     }
     fn enabled(&self, w: &World, mon: &Mon, _depth: usize) -> Vec<String> {
@@ -90,6 +101,9 @@ impl Scenario for Adv {
         }
         // the manager is busy for a while (once per history): commands of the tasks queue up and are
         // then worked off in arrival order without any task running in between
+        if self.rotate && mon.rotations < 2 {
+            out.push("R".to_string());
+        }
         if w.manager_paused {
             out.push("G".to_string());
         } else if self.busy && !mon.pause_used {
@@ -138,6 +152,9 @@ impl Scenario for Adv {
         if sym == "Z" {
             return vec![Ev::PauseManager];
         }
+        if sym == "R" {
+            return vec![Ev::Rotate];
+        }
         if sym == "G" {
             return vec![Ev::ResumeManager];
         }
@@ -177,6 +194,7 @@ impl Scenario for Adv {
                 "A1" => mon.o[0].world_index = Some(w.peers.len() - 1),
                 "Z" => mon.pause_used = true,
                 "G" => {}
+                "R" => mon.rotations += 1,
                 "P2" => {
                     mon.d2_outstanding.remove(0);
                 }
@@ -315,15 +333,15 @@ impl Scenario for Adv {
     fn key(&self, w: &World, mon: &Mon) -> String {
         let o: Vec<String> = mon.o.iter().map(|o| format!("{:?}/{}/{}/{:?}", o.world_index, o.handshaken, o.choking_us, o.released)).collect();
         let haves: Vec<Vec<u32>> = mon.o.iter().map(|o| o.world_index.map(|wi| w.peers[wi].msgs.iter().filter_map(|m| if let Msg::Have(i) = m { Some(*i) } else { None }).collect()).unwrap_or_default()).collect();
-        format!("{} d={:?} d2={:?}/{} o={:?} haves={:?} done={:?} busy={}/{} q={:?}", strip_counters(&w.default_key()), mon.d_outstanding, mon.d2_outstanding, mon.d2_choking, o, haves, mon.completed, w.manager_paused, mon.pause_used, mon.queued)
+        format!("{} d={:?} d2={:?}/{} o={:?} haves={:?} done={:?}  busy={}/{} rot={} q={:?}", strip_counters(&w.default_key()), mon.d_outstanding, mon.d2_outstanding, mon.d2_choking, o, haves, mon.completed, w.manager_paused, mon.pause_used, mon.rotations, mon.queued)
     }
 }
 
 pub fn scenarios(thorough: bool) -> Vec<(Adv, usize)> {
     if thorough {
-        vec![(Adv { pieces: 3, preowned: vec![], second_downloader: false, busy: false }, 17), (Adv { pieces: 3, preowned: vec![1], second_downloader: false, busy: false }, 15), (Adv { pieces: 4, preowned: vec![], second_downloader: false, busy: false }, 14), (Adv { pieces: 3, preowned: vec![], second_downloader: true, busy: false }, 9), (Adv { pieces: 3, preowned: vec![], second_downloader: false, busy: true }, 11)]
+        vec![(Adv { pieces: 3, preowned: vec![], second_downloader: false, busy: false, rotate: false }, 17), (Adv { pieces: 3, preowned: vec![1], second_downloader: false, busy: false, rotate: false }, 15), (Adv { pieces: 4, preowned: vec![], second_downloader: false, busy: false, rotate: false }, 14), (Adv { pieces: 3, preowned: vec![], second_downloader: true, busy: false, rotate: false }, 9), (Adv { pieces: 3, preowned: vec![], second_downloader: false, busy: true, rotate: false }, 11), (Adv { pieces: 3, preowned: vec![], second_downloader: false, busy: false, rotate: true }, 12)]
     } else {
-        vec![(Adv { pieces: 3, preowned: vec![], second_downloader: false, busy: false }, 9), (Adv { pieces: 2, preowned: vec![], second_downloader: false, busy: false }, 11), (Adv { pieces: 2, preowned: vec![], second_downloader: true, busy: false }, 7), (Adv { pieces: 2, preowned: vec![], second_downloader: false, busy: true }, 8)]
+        vec![(Adv { pieces: 3, preowned: vec![], second_downloader: false, busy: false, rotate: false }, 9), (Adv { pieces: 2, preowned: vec![], second_downloader: false, busy: false, rotate: false }, 11), (Adv { pieces: 2, preowned: vec![], second_downloader: true, busy: false, rotate: false }, 7), (Adv { pieces: 2, preowned: vec![], second_downloader: false, busy: true, rotate: false }, 8), (Adv { pieces: 2, preowned: vec![], second_downloader: false, busy: false, rotate: true }, 8)]
     }
 }
 
